@@ -122,7 +122,7 @@ def dyadic(rng, lo, hi, bits=4):
 U_CHOICES = (1.0, 1.0, 1.0625, 1.5, 2.0, 1 + 2.0 ** -20, 1.25, 1.015625, 0.75, 0.9375)  # u < 1: polling a super-majority with share > 1/2
 
 
-U_NONDYADIC = (4 / 3, 1.2, 2 / 1.9, 2 / 1.7, 1.1, 0.7, 2 / 1.95, 1.3, 1 / 1.2)
+U_NONDYADIC = (4 / 3, 1.2, 2 / 1.9, 2 / 1.7, 1.1, 0.7, 2 / 1.95, 1.3, 1 / 1.2, 5 / 3, 1.6, 1.9, 2 / 1.1, 1.7, 2 / 1.3)
 
 
 def gen_cfg(rng, combo=None, finite=None, n_max=12, allow_not_random=True, u=None, t=None, allow_default_eta=False,
